@@ -35,6 +35,7 @@ func init() {
 	register("pool-stress", poolStress)
 	register("pool-history", poolHistory)
 	register("pool-baseline", poolBaseline)
+	register("pool-after-core", poolAfterCore)
 }
 
 type poolCall struct {
@@ -667,5 +668,68 @@ func poolHistory(args []string) int {
 	}
 	_ = lastGet
 	_ = os.Stdout
+	return 0
+}
+
+// pool-after-core <core-script.json> <out.ndjson> <baselines.json> <probes.json>
+// History independence against histories of ARBITRARY API calls: every behaviour of a LoggCore
+// script (configuration calls, logger creation, flag changes, records of every kind on other
+// loggers) is executed, the process-global switches are put back, and then each probe - issued on
+// the probe loggers, which no script ever touches - must produce the bytes it produces in a process
+// that never did anything else.
+func poolAfterCore(args []string) int {
+	if len(args) < 4 {
+		fmt.Fprintln(diag, "usage: worker pool-after-core <core-script.json> <out.ndjson> <baselines.json> <probes.json>")
+		return 2
+	}
+	var sc coreScript
+	readJSON(args[0], &sc)
+	out := newTraceOut(args[1])
+	defer out.close()
+	external := map[string][]int{}
+	readJSON(args[2], &external)
+	var probes []int
+	readJSON(args[3], &probes)
+	captureStdio()
+	env := histSetup()
+	for _, c := range sc.Customs {
+		var opts []slog.RegOpt
+		if c.Treat >= 0 {
+			opts = append(opts, slog.RegWithTreatedAsLevel(slog.Level(c.Treat)))
+		}
+		_ = slog.RegisterLevel(slog.Level(c.V), c.Title, opts...)
+	}
+	r := &coreRun{sc: &sc, obs: map[string]bool{}, ts: time.Date(2024, 5, 6, 7, 8, 9, 123456789, time.UTC)}
+	for bi, beh := range sc.Behaviours {
+		r.reset()
+		for _, ev := range beh {
+			r.exec(ev)
+		}
+		// back to the global state every probe baseline was taken in
+		r.reset()
+		slog.SetFlags(slog.LstdFlags | slog.LnoInterrupt)
+		takeAll()
+		for k := 0; k < 3; k++ {
+			p := probes[(bi*3+k)%len(probes)]
+			env.rec.clear()
+			env.emit(p, false)
+			var got []byte
+			if len(env.rec.payloads) == 1 {
+				got = env.rec.payloads[0]
+			}
+			ints := external[strconv.Itoa(p)]
+			want := make([]byte, len(ints))
+			for i, x := range ints {
+				want[i] = byte(x)
+			}
+			rec := map[string]any{"ev": "probe", "b": bi + 1, "history": []int{}, "probe": p,
+				"same": bytes.Equal(got, want) && got != nil, "reused": true}
+			if !bytes.Equal(got, want) {
+				rec["got"] = string(got)
+				rec["want"] = string(want)
+			}
+			out.emit(rec)
+		}
+	}
 	return 0
 }
